@@ -52,6 +52,7 @@ type effCtx struct {
 	profile string
 	memo    map[*ssa.Function]*Effects
 	busy    map[*ssa.Function]bool
+	cyclic  bool
 }
 
 func (c *effCtx) ofFunc(fn *ssa.Function) *Effects {
@@ -59,27 +60,55 @@ func (c *effCtx) ofFunc(fn *ssa.Function) *Effects {
 		return e
 	}
 	if c.busy[fn] {
-		return &Effects{All: true, Why: "recursion through " + fn.Name(), Writes: map[string]famInfo{}, Allocs: map[string]famInfo{}}
+		// recursion: the cycle's effects are the union of the bodies on it,
+		// which the outermost activation accumulates
+		c.cyclic = true
+		return newEffects()
 	}
 	if fn.Pkg == nil || !strings.HasPrefix(fn.Pkg.Pkg.Path(), ModulePath) {
 		if fc := c.P.Contracts.Funcs[externKey(fn)]; fc != nil {
-			return c.ofContract(fc, externKey(fn))
+			return c.ofContract(fc, externKey(fn), fnTypes(fn)...)
 		}
 	}
 	if fn.Blocks == nil {
 		return c.ofExternal(fn)
 	}
-	// a trusted/pure contract on a repo function overrides the body
-	if fc := c.P.Contracts.Funcs[FuncKey(fn)]; fc != nil && fc.Pure {
-		e := newEffects()
-		c.memo[fn] = e
-		return e
+	// a contract with a frame (or `pure`) summarises the body
+	if fc := c.P.Contracts.Funcs[FuncKey(fn)]; fc != nil && !fc.Inline {
+		if fc.Pure {
+			e := newEffects()
+			c.memo[fn] = e
+			return e
+		}
+		if fc.Mod(c.profile) != nil {
+			var names []string
+			for _, p := range fn.Params {
+				names = append(names, p.Name())
+			}
+			e := c.ofContractNamed(fc, FuncKey(fn), names, fnParamTypes(fn))
+			c.memo[fn] = e
+			return e
+		}
 	}
+	outer := len(c.busy) == 0
 	c.busy[fn] = true
 	e := c.ofBlocks(fn, fn.Blocks)
 	delete(c.busy, fn)
-	c.memo[fn] = e
+	if outer || !c.cyclic {
+		c.memo[fn] = e
+	}
+	if outer {
+		c.cyclic = false
+	}
 	return e
+}
+
+func fnParamTypes(fn *ssa.Function) []types.Type {
+	var out []types.Type
+	for _, p := range fn.Params {
+		out = append(out, p.Type())
+	}
+	return out
 }
 
 func externKey(fn *ssa.Function) string {
@@ -95,7 +124,7 @@ func externKey(fn *ssa.Function) string {
 func (c *effCtx) ofExternal(fn *ssa.Function) *Effects {
 	e := newEffects()
 	if fc := c.P.Contracts.Funcs[externKey(fn)]; fc != nil {
-		return c.ofContract(fc, externKey(fn))
+		return c.ofContract(fc, externKey(fn), fnTypes(fn)...)
 	}
 	e.All = true
 	e.Why = "external function without stub: " + fn.String()
@@ -103,27 +132,95 @@ func (c *effCtx) ofExternal(fn *ssa.Function) *Effects {
 }
 
 // ofContract gives the effects of a call described only by a contract
-// (interface method, function signature, external).
-func (c *effCtx) ofContract(fc *FuncContract, what string) *Effects {
+// (interface method, function signature, external). ptypes are the types of
+// the contract's parameters (receiver first for interface methods).
+func (c *effCtx) ofContract(fc *FuncContract, what string, ptypes ...types.Type) *Effects {
+	names := fc.Params
+	if fc.Kind == "iface" && len(names) == len(ptypes)-1 {
+		names = append([]string{"recv"}, names...)
+	}
+	return c.ofContractNamed(fc, what, names, ptypes)
+}
+
+// staticType types a modifies expression (parameter, field selections) without a state.
+func staticType(ex Expr, names []string, ptypes []types.Type) types.Type {
+	switch n := ex.(type) {
+	case *Ident:
+		for i, nm := range names {
+			if nm == n.Name && i < len(ptypes) {
+				return ptypes[i]
+			}
+		}
+	case *Sel:
+		t := staticType(n.X, names, ptypes)
+		if t == nil {
+			return nil
+		}
+		obj, _ := findField(t, n.Name)
+		if obj != nil {
+			return obj.Type()
+		}
+	case *Index:
+		t := staticType(n.X, names, ptypes)
+		if t == nil {
+			return nil
+		}
+		switch u := t.Underlying().(type) {
+		case *types.Slice:
+			return u.Elem()
+		case *types.Map:
+			return u.Elem()
+		}
+	}
+	return nil
+}
+
+func (c *effCtx) ofContractNamed(fc *FuncContract, what string, names []string, ptypes []types.Type) *Effects {
 	e := newEffects()
 	if fc.Pure {
 		return e
 	}
-	if fc.HasModifies && (fc.ModProfile == "" || fc.ModProfile == c.profile) {
+	if mc := fc.Mod(c.profile); mc != nil {
 		if !fc.NoAlloc {
 			e.AllocAll = true
 		}
-		if len(fc.Modifies) > 0 {
-			// object-level list; family-level: unknown which, so all families may be written,
-			// refined at the call site by the modifies list.
-			e.All = true
-			e.Why = "modifies list of " + what
+		for _, m := range mc.Exprs {
+			t := staticType(m, names, ptypes)
+			resolved := false
+			if t != nil {
+				switch u := t.Underlying().(type) {
+				case *types.Map:
+					e.Writes[famMap(t)] = famInfo{'M', t}
+					resolved = true
+				case *types.Pointer:
+					e.Writes[famPtr(u.Elem())] = famInfo{'H', u.Elem()}
+					resolved = true
+				case *types.Slice:
+					e.Writes[famElem(u.Elem())] = famInfo{'E', u.Elem()}
+					resolved = true
+				}
+			}
+			if !resolved {
+				e.All = true
+				e.Why = "modifies list of " + what + " not resolvable to families"
+			}
 		}
 		return e
 	}
 	e.All = true
 	e.Why = "no frame known for " + what
 	return e
+}
+
+func sigTypes(sig *types.Signature, recv types.Type) []types.Type {
+	var out []types.Type
+	if recv != nil {
+		out = append(out, recv)
+	}
+	for i := 0; i < sig.Params().Len(); i++ {
+		out = append(out, sig.Params().At(i).Type())
+	}
+	return out
 }
 
 func addrRootFam(v ssa.Value) (string, famInfo, bool) {
@@ -215,7 +312,7 @@ func (c *effCtx) ofCall(fn *ssa.Function, ci ssa.CallInstruction) *Effects {
 	if com.IsInvoke() {
 		key := ifaceKey(com)
 		if fc := c.P.Contracts.Funcs[key]; fc != nil {
-			return c.ofContract(fc, key)
+			return c.ofContract(fc, key, sigTypes(com.Signature(), com.Value.Type())...)
 		}
 		e.All = true
 		e.Why = "interface call without contract: " + key
@@ -250,7 +347,7 @@ func (c *effCtx) ofCall(fn *ssa.Function, ci ssa.CallInstruction) *Effects {
 	if fc := c.P.Contracts.Funcs[FuncKey(fn)]; fc != nil {
 		if key, ok := fc.CallsAs[describeValue(fn, com.Value)]; ok {
 			if sc := c.P.Contracts.Funcs[key]; sc != nil {
-				return c.ofContract(sc, key)
+				return c.ofContract(sc, key, sigTypes(com.Signature(), nil)...)
 			}
 		}
 	}
@@ -264,4 +361,12 @@ func ifaceKey(com *ssa.CallCommon) string {
 	t := com.Value.Type()
 	name := typeStr(t)
 	return "iface:" + name + "." + com.Method.Name()
+}
+
+func fnTypes(fn *ssa.Function) []types.Type {
+	var recv types.Type
+	if r := fn.Signature.Recv(); r != nil {
+		recv = r.Type()
+	}
+	return sigTypes(fn.Signature, recv)
 }
